@@ -214,6 +214,7 @@ def run(ctx: Ctx):
                        f"real paths)", rel, n.lineno, sample=u(n)[:120])
         col.floor(f"score_pad_sites[{tag}]", n_, 1)
     _all_paths_done_ignores_empty_slots(ctx)
+    _initial_score_is_zero(ctx)
     from .search_common import finished_mass_on_eos
     finished_mass_on_eos(ctx, pkg.func(f"{MOD}::BeamSearch.forward"), "S3")
     _pad_block_takes_extents_from_its_partner(ctx)
@@ -255,11 +256,24 @@ def _all_paths_done_ignores_empty_slots(ctx: Ctx):
     if not isinstance(sarg, ast.Name):
         raise AnalysisError("C04: BeamSearch.forward no longer calls beam_search_advance(log_probs_t, width, <scores>, ...)")
     score = sarg.id
-    sites = []
+    sites, anys = [], []
     for n in own_nodes(f.node):
-        if isinstance(n, ast.Call) and isinstance(n.func, ast.Attribute) and n.func.attr == "all" and n.args and u(n.args[0]) == "1" \
+        if isinstance(n, ast.Call) and isinstance(n.func, ast.Attribute) and n.func.attr in ("all", "any") and n.args and u(n.args[0]) == "1" \
                 and under_flag(guards_of(pm, n), "self.finish_all_paths", True):
-            sites.append(n)
+            par = pm.get(n)
+            negated_any_of_negation = n.func.attr == "any" and isinstance(par, ast.UnaryOp) and isinstance(par.op, ast.Invert) \
+                and isinstance(n.func.value, ast.UnaryOp) and isinstance(n.func.value.op, ast.Invert)
+            if n.func.attr == "all" or negated_any_of_negation:
+                sites.append(n)
+            else:
+                anys.append(n)
+    # 'run all paths to completion': an element is done when EVERY slot has finished (or is empty), never when some slot has
+    col.ob("G13", "S5", f"{rel}::BeamSearch.forward::all-paths-mode-waits-for-every-slot", not anys,
+           (f"under finish_all_paths `{u(anys[0])[:80]}` declares a batch element done as soon as ONE slot of its beam has finished (or is "
+            f"empty): the search freezes the element at the first eos anywhere in the beam and returns unfinished prefixes instead of the "
+            f"full set of complete sequences") if anys else "", rel, anys[0].lineno if anys else f.line)
+    if anys and not sites:
+        return
     if len(sites) != 1:
         raise AnalysisError(f"C04: expected one all-paths reduction under finish_all_paths, found {len(sites)}")
     from sa.inline import Inliner
@@ -273,6 +287,63 @@ def _all_paths_done_ignores_empty_slots(ctx: Ctx):
            f"than the number of paths, zero-probability extensions) never end in eos, so this is never true: the call does not "
            f"return (or runs to max_iters with idx > hist.size(0)) and a batch element that is done breaks the frozen-copy shapes",
            rel, sites[0].lineno, sample=u(sites[0])[:120])
+
+
+def _initial_score_is_zero(ctx: Ctx):
+    """S7: the search starts from the single empty prefix, whose log-probability is log 1 = 0; every reported score is that start plus
+    the chained extension scores. A start that depends on the target width (-log(width)) shifts every reported score by a constant:
+    ranking and paths stay right, the reported log-probability no longer is the model's own. The fill value of the score tensor's
+    definition before the step loop is evaluated (math.log by its value) for width 1 and 3."""
+    import math
+    from sa.defuse import ReachingDefs
+    from sa.inline import Inliner
+    from sa.inteval import NotEvaluable, int_eval
+    col, pkg = ctx.col, ctx.pkg
+    f = pkg.func("_decoding::BeamSearch.forward")
+    rel = f.module.relname
+    rd = ReachingDefs(f.node)
+    adv = [c for c in own_calls(f.node) if call_name(c) == "beam_search_advance"]
+    advf = pkg.func("_decoding::beam_search_advance")
+    sarg = bind_args(adv[0], advf, False).arg_for(advf.params[2].name) if len(adv) == 1 else None
+    if not isinstance(sarg, ast.Name):
+        raise AnalysisError("C04: BeamSearch.forward no longer calls beam_search_advance(log_probs_t, width, <scores>, ...)")
+    loops = [st for st in f.node.body if isinstance(st, (ast.For, ast.While))]
+    first_loop = min((l.lineno for l in loops), default=10 ** 9)
+    inits = [d for d in rd.defs if d.name == sarg.id and d.kind == "assign" and d.value is not None and d.line < first_loop]
+    if len(inits) != 1:
+        raise AnalysisError(f"C04: expected one definition of the scores before the step loop, found {len(inits)}")
+    v = Inliner(f.node, rd).expand(inits[0].value)
+    fill = None
+    if isinstance(v, ast.Call):
+        cn = call_name(v)
+        if cn in ("torch.zeros", "torch.zeros_like") or (isinstance(v.func, ast.Attribute) and v.func.attr == "new_zeros"):
+            fill = ast.Constant(value=0)
+        elif cn == "torch.full" and len(v.args) >= 2:
+            fill = v.args[1]
+        elif isinstance(v.func, ast.Attribute) and v.func.attr == "new_full" and len(v.args) >= 2:
+            fill = v.args[1]
+    if fill is None:
+        col.undecided(f"{rel}::BeamSearch.forward: the initial scores `{u(v)[:60]}` are not a constant fill")
+        return
+    vals = {}
+    try:
+        for w in (1, 3):
+            def leaf(x, w=w):
+                if isinstance(x, ast.Call) and call_name(x) in ("math.log", "log", "math.log2", "math.log10") and len(x.args) == 1:
+                    a = int_eval(x.args[0], {"self.width": w, "__leaf__": leaf})
+                    if a is None or a <= 0:
+                        raise NotEvaluable("log of a non-positive number")
+                    return math.log(a) if a != 1 else 0.0
+                return None
+            vals[w] = int_eval(fill, {"self.width": w, "__leaf__": leaf})
+    except NotEvaluable as e:
+        col.undecided(f"{rel}::BeamSearch.forward: the initial score `{u(fill)[:50]}` is outside the evaluated fragment ({e})")
+        return
+    ok = all(abs(float(x)) == 0.0 for x in vals.values())
+    col.ob("G12", "S7", f"{rel}::BeamSearch.forward::empty-prefix-starts-at-log-one", ok,
+           f"the search starts its single empty prefix at `{u(fill)}` = {vals} (width 1, 3) instead of log 1 = 0: every reported "
+           f"log-probability is shifted by that constant and no longer equals the model's chained score of the returned tokens", rel,
+           inits[0].line, sample={str(k): float(x) for k, x in vals.items()})
 
 
 def _pad_block_takes_extents_from_its_partner(ctx: Ctx):
@@ -383,6 +454,6 @@ MANIFEST = dict(
         "unusable slots. Necessary conditions of 'model state must follow the surviving paths' and 'unusable slots "
         "carry -inf'; distinctness/order/score equality over search trajectories are not decided."),
     level_note="Trusted: python ast; torch gather/topk semantics; user language models are opaque.",
-    technique="static analysis: reaching definitions (def-use versions), index-space kind checking, literal sentinel tables, argument binding",
+    technique="static analysis: reaching definitions (def-use versions), index-space kind checking, literal sentinel tables, argument binding; evaluation of the initial score",
     design_ref="DESIGN.md section 4 C04",
 )
